@@ -121,7 +121,9 @@ def get_partition_spec(tree: A) -> A:
 
   def f(x):
     if isinstance(x, (variablelib.VariableState, variablelib.Variable)):
-      if hasattr(x, 'sharding') and x.sharding:
+      # look the annotation up in the metadata: attribute access on a Variable
+      # falls through to its value, and jax Arrays have a ``.sharding`` too
+      if x.get_metadata().get('sharding'):
         if core_spmd.get_logical_axis_rules() or hasattr(x, 'sharding_rules'):
           context_rules = core_spmd.get_logical_axis_rules()
           local_rules = getattr(x, 'sharding_rules', ())
